@@ -645,6 +645,10 @@ func (sa *Application) AddAllocationAsk(ask *Allocation) error {
 	if ask.IsAllocated() || resources.IsZero(ask.GetAllocatedResource()) {
 		return fmt.Errorf("invalid ask added to app %s: %v", sa.ApplicationID, ask)
 	}
+	// the application can complete, and be unlinked from its queue, between the lookup in the partition and this call
+	if sa.queue == nil || sa.IsCompleted() || sa.IsFailed() || sa.IsExpired() {
+		return fmt.Errorf("ask %s added to app %s which has terminated (state %s)", ask.GetAllocationKey(), sa.ApplicationID, sa.stateMachine.Current())
+	}
 	if ask.createTime.Before(sa.submissionTime) {
 		sa.submissionTime = ask.createTime
 	}
